@@ -339,6 +339,16 @@ def obligations(tier):
                 'In-only collection, init then apply (mutable or not), stack size 7',
          assumes=('jax.vmap and flax.core.axes_scan.scan replaced by numpy '
                   'slice / call / stack reference loops; lift.random.split stubbed',)),
+      Ob('nnx_transform_metadata', CL.nnx_transform_metadata,
+         dict(tr=I(0, 1), ka=I(0, 3), other=B(), order=B(), oa=I(0, 0)),
+         split=('tr', 'ka'), timeout=300,
+         funcs=qualnames(CL.C08.IT._update_variable_sharding_metadata,
+                         CL.C08.IT.VmapFn.__call__, CL.C08.IT.ScanFn.__call__,
+                         NS.add_axis, NS.remove_axis),
+         bounds='nnx.vmap / nnx.scan, Param [2,4] stacked along 0,1,2,-1, BatchStat '
+                'carried / shared or on axis 0, both orders of the StateAxes filters',
+         assumes=('jax.vmap / lax.scan / jnp.moveaxis are reference loops on an '
+                  'int-array stand-in',)),
       Ob('logical_rules', logical_rules,
          dict(dp=I(0, len(DPAT) - 1), nr=I(0, 3), l0=lg, l1=lg, l2=lg, m0=ms,
               m1=ms, m2=ms), split=('dp', 'nr', 'l0'), timeout=400, funcs=H,
